@@ -1,5 +1,5 @@
 (* C08 correspondence: case type, model run (as sx observation), executable statement spec_ok. *)
-From Verif Require Import Base.Prelude Base.StrUtil Base.Index Model.MapSpec Model.MapSpecSpec.
+From Verif Require Import Base.Prelude Base.StrUtil Base.Index Model.MapSpec Model.MapSpecSpec Model.IndexOps.
 
 Definition raw := list (str * list (option str)).
 
@@ -9,7 +9,14 @@ Inductive case :=
 | CShape (i o : raw) (ishapes internal : shape_dict)  (* MapSpec(..).shape(..) *)
 | CKeys (i o : raw) (sh : list nat)                   (* output_key / input_keys for all linear indices *)
 | CRename (i o : raw) (ren : list (str * str))
-| CAddAxes (i o : raw) (ax : list (option str)).
+| CAddAxes (i o : raw) (ax : list (option str))
+| CIdx (c : idx_call)                                 (* direct call of one index helper *)
+| CGen (fn : str).
+    (* translator obligation for the function `fn` ("corollaries" = the transfer theorems): harness/translate_index.py
+       regenerates coq/gen/Gen_Index.v from the Python source, coqc re-checks coq/gen/Check_Index.v against it.
+       observed: [translation status; proof status] *)
+
+Definition gen_expected : sx := SL [SS (s "translated"); SS (s "proved")].
 
 Definition sx_axis (a : option str) : sx := match a with None => SNone | Some i => SS i end.
 Definition sx_aspec (a : aspec) : sx := SL [SS (aname a); SL (map sx_axis (axes a))].
@@ -48,6 +55,8 @@ Definition run (c : case) : sx :=
       | Ok m => sx_of_result sx_mapspec (add_axes m ax)
       | Err e => SL [SS (s "bad-case"); SErr e]
       end
+  | CIdx c => sx_of_result sx_nats (idx_run c)
+  | CGen _ => gen_expected
   end.
 
 (* ---------- decoding of observations ---------- *)
@@ -126,6 +135,59 @@ Definition shape_ok (m : mapspec) (ish int : shape_dict) (o : sx) : bool :=
     end
   else sx_is_err o.
 
+(* direct calls of the index helpers, judged against what their docstrings / the property say:
+   strides[k] = product of the later dimensions; _shape_to_key(sh, n) = the n-th position in row-major
+   (itertools.product) order; select_by_mask interleaves such that the masked / unmasked entries of the result are the
+   two tuples (too short a tuple must raise); external/internal_shape_from_mask keep the entries with mask True/False *)
+Definition idx_ok (c : idx_call) (o : sx) : bool :=
+  match c with
+  | IStrides sh =>
+      match un_ok o with
+      | Some x => match un_nats x with
+                  | Some st => list_eqb Nat.eqb st (map (fun k => prod (skipn (S k) sh)) (seq 0 (length sh)))
+                  | None => false end
+      | None => false
+      end
+  | IKey sh n =>
+      if forallb (fun d => 0 <? d) sh && (n <? prod sh) then
+        match un_ok o with
+        | Some x => match un_nats x with
+                    | Some key => opt_eqb (list_eqb Nat.eqb) (nth_error (all_indices sh) n) (Some key)
+                    | None => false end
+        | None => false
+        end
+      else true
+  | ISelect mask e i =>
+      if (length e =? n_true mask) && (length i =? n_false mask) then
+        match un_ok o with
+        | Some x => match un_nats x with
+                    | Some r => (length r =? length mask)
+                                && list_eqb Nat.eqb (ext_of mask r) e && list_eqb Nat.eqb (int_of mask r) i
+                    | None => false end
+        | None => false
+        end
+      else if (length e <? n_true mask) || (length i <? n_false mask) then sx_is_err o
+      else true
+  | IExt sh mask =>
+      if length sh =? length mask then
+        match un_ok o with
+        | Some x => match un_nats x with
+                    | Some r => list_eqb Nat.eqb r (map fst (filter (fun dm => snd dm) (combine sh mask)))
+                    | None => false end
+        | None => false
+        end
+      else true
+  | IInt sh mask =>
+      if length sh =? length mask then
+        match un_ok o with
+        | Some x => match un_nats x with
+                    | Some r => list_eqb Nat.eqb r (map fst (filter (fun dm => negb (snd dm)) (combine sh mask)))
+                    | None => false end
+        | None => false
+        end
+      else true
+  end.
+
 Definition renamed (ren : list (str * str)) (a : aspec) : aspec :=
   {| aname := match dict_get ren (aname a) with Some n => n | None => aname a end; axes := axes a |}.
 
@@ -184,4 +246,6 @@ Definition spec_ok (c : case) (o : sx) : bool :=
           else sx_is_err o
       | Err _ => true
       end
+  | CIdx c => idx_ok c o
+  | CGen _ => sx_eqb o gen_expected
   end.
